@@ -38,8 +38,12 @@ Fixpoint td_fields (kvs : list (pv * pv)) : option (list (nat * pv)) :=
 
 Definition tokv (fv : nat * pv) : pv * pv := (PKey (fst fv), snd fv).
 
+(* every required key of a TypedDict is present (the very test of Core.construct_class) *)
+Definition req_ok (cd : classdef) (fs : list (nat * pv)) : bool :=
+  forallb (fun fd => negb (existsb (Nat.eqb (fname fd)) (crequired cd)) || has_kw (fname fd) fs) (cfields cd).
+
 (* the (field, value) list of an instance of structured class c, when v is such an instance
-   with exactly the declared fields (TypedDict: any duplicate-free subset of the declared keys) *)
+   with exactly the declared fields (TypedDict: any duplicate-free subset of the declared keys that contains the required ones) *)
 Definition class_fields (c : nat) (cd : classdef) (v : pv) : option (list (nat * pv)) :=
   match cflavour cd, v with
   | FDataclass, PObj c' fs | FPlain, PObj c' fs =>
@@ -47,7 +51,11 @@ Definition class_fields (c : nat) (cd : classdef) (v : pv) : option (list (nat *
   | FNamedTuple, PNamed c' l =>
       if Nat.eqb c c' && Nat.eqb (length l) (length (cfields cd))
       then Some (combine (map fname (cfields cd)) l) else None
-  | FTypedDict, PDict KDict kvs => td_fields kvs
+  | FTypedDict, PDict KDict kvs =>
+      match td_fields kvs with
+      | Some fs => if req_ok cd fs then Some fs else None
+      | None => None
+      end
   | _, _ => None
   end.
 
@@ -370,12 +378,12 @@ Definition toy_env : env := fun c =>
   match c with
   | 0 => Some (NClass {| cflavour := FDataclass;
                          cfields := [ {| fname := 0; fty := TSeq KList (TLeaf 1); fdefault := None |};
-                                      {| fname := 1; fty := TUnion [TLeaf 2; TNone]; fdefault := Some (PAtom 0) |} ] |})
+                                      {| fname := 1; fty := TUnion [TLeaf 2; TNone]; fdefault := Some (PAtom 0) |} ]; crequired := [] |})
   | 1 => Some (NClass {| cflavour := FNamedTuple;
-                         cfields := [ {| fname := 0; fty := TMap KDict (TLeaf 2) (TLeaf 1); fdefault := None |} ] |})
+                         cfields := [ {| fname := 0; fty := TMap KDict (TLeaf 2) (TLeaf 1); fdefault := None |} ]; crequired := [] |})
   | 2 => Some (NClass {| cflavour := FTypedDict;
                          cfields := [ {| fname := 0; fty := TTuple [TLeaf 1; TLeaf 2]; fdefault := None |};
-                                      {| fname := 1; fty := TSeq KSet (TNewType 0 (TLeaf 1)); fdefault := None |} ] |})
+                                      {| fname := 1; fty := TSeq KSet (TNewType 0 (TLeaf 1)); fdefault := None |} ]; crequired := [0] |})
   | 3 => Some (NType (TTuple [TName 0; TRef 1; TAlias 1 (TName 2)]))
   | _ => None
   end.
